@@ -297,6 +297,23 @@ func dumpModel(p *Program, what string) {
 				fmt.Printf("%s in %s @%s\n   %s\n   conds=%v\n", l.Type, l.Func, p.pos(l.Pos), strings.Join(fs, "\n   "), l.Conds)
 			}
 		}
+		if os.Getenv("DUMP_RESP") != "" {
+			tapi := p.Pkg(pkgTApi)
+			for _, n := range tapi.Types.Scope().Names() {
+				if !strings.HasSuffix(n, "Response") || n == "Response" {
+					continue
+				}
+				for _, l := range m.structLits(pkgTApi, n) {
+					var fs []string
+					for k, v := range l.Fields {
+						fs = append(fs, k+"="+v)
+					}
+					sort.Strings(fs)
+					fmt.Printf("%s in %s @%s\n   %s\n   conds=%v\n", l.Type, l.Func, p.pos(l.Pos), strings.Join(fs, "\n   "), l.Conds)
+				}
+			}
+			return
+		}
 		if os.Getenv("DUMP_OBJ") != "" {
 			return
 		}
